@@ -190,6 +190,39 @@ def run(M, rec, tier, seed, k, n):
                                         "symbolic_parameters": [list(k_) for k_ in keys], "opts": opts})
                         if not ok:
                             break
+            # a symbolic exponent evaluated at an exact whole number, at a state with a (transiently) negative density: the NumPy
+            # step with the number 2 for `a` gives a finite x**2 there
+            a_keys = [k_ for k_ in keys if k_[1] == "a" and (k_[0], "a") not in seg_po]
+            if a_keys and not opts.get("positive_init_density"):
+                import copy as _copy
+
+                for st in ("SX", "MX"):
+                    try:
+                        case = CC.CompileCase(M, rng, desc, pars, st, keys, opts, own_symbols=True, prestep=False, param_override=(seg_po or None))
+                        if any(isinstance(case.param_name.get(k_), tuple) for k_ in a_keys):
+                            continue
+                        d3, pv3 = _copy.deepcopy(desc), dict(case.pvalues)
+                        vn = _copy.deepcopy(points[0])
+                        for (lid_, _a) in a_keys:
+                            val_ = float(rng.choice((2, 3, 1)))
+                            for l_ in d3["links"]:
+                                if l_["id"] == lid_:
+                                    l_["a"] = val_
+                            pv3[case.param_name[(lid_, "a")]] = val_
+                            vn[lid_]["rho"][rng.randrange(len(vn[lid_]["rho"]))] = -rng.uniform(0.1, 2.0)
+                        if any(isinstance(x_, float) and math.isinf(x_) for d_ in vn.values() for v_ in d_.values() for x_ in (v_ if isinstance(v_, list) else [v_])):
+                            continue
+                        twin3, _b = CC.numpy_twin_next(M, d3, vn, pars, opts, param_override=(seg_po or None))
+                        compact = rng.choice((0, 1, 2))
+                        F = case.compile(compact, False)
+                        xn3 = case.call(F, vn, compact, False, pvalues=pv3)[0]
+                    except Exception as e:
+                        rec.count("integer_exponent_cases_failed")
+                        rec.seen("integer_exponent_cases_failed", repr(e)[:120])
+                        continue
+                    rec.count("evaluations_with_a_symbolic_exponent_at_a_whole_number_and_a_negative_density")
+                    compare(rec, f"{st} compact={compact} symbolic exponent at a whole number, negative density vs NumPy", d3, xn3, twin3,
+                            {"desc": d3, "pars": pars, "vals": vn, "sym_type": st, "compact": compact}, magnitudes(d3, vn, pars))
             for (compact, _), d in per_type.items():
                 if "SX" in d and "MX" in d:
                     rec.count("sx_mx_pairs")
